@@ -118,3 +118,35 @@ Proof.
   revert l; induction n as [|n IH]; intros l H; simpl in *; [tauto|].
   destruct l as [|y l]; simpl in *; [tauto|]. destruct H as [H|H]; [now left| right; now apply IH].
 Qed.
+
+Lemma NoDup_app_intro {A} (l1 l2 : list A) :
+  NoDup l1 -> NoDup l2 -> (forall x, In x l1 -> In x l2 -> False) -> NoDup (l1 ++ l2).
+Proof.
+  induction 1 as [|x l1 Hx H1 IH]; intros H2 Hd; simpl; [exact H2|].
+  constructor.
+  - intro Hin. apply in_app_or in Hin. destruct Hin as [Hin|Hin]; [contradiction| apply (Hd x); [now left|exact Hin]].
+  - apply IH; [exact H2| intros y Hy1 Hy2; apply (Hd y); [now right|exact Hy2]].
+Qed.
+
+Lemma NoDup_map_inj {A B} (f : A -> B) l : (forall x y, f x = f y -> x = y) -> NoDup l -> NoDup (map f l).
+Proof.
+  intros Hf. induction 1 as [|x l Hx H IH]; simpl; constructor; [|exact IH].
+  intro Hin. apply in_map_iff in Hin. destruct Hin as (y & E & Hy). apply Hf in E. subst. contradiction.
+Qed.
+
+Lemma nth_map' {A B} (f : A -> B) l i dA dB : i < length l -> nth i (map f l) dB = f (nth i l dA).
+Proof.
+  intros H. rewrite (nth_indep _ dB (f dA)) by (rewrite map_length; exact H). apply map_nth.
+Qed.
+
+Lemma In_skipn {A} (x : A) n l : In x (skipn n l) -> In x l.
+Proof.
+  revert l; induction n as [|n IH]; intros l H; simpl in *; [exact H|].
+  destruct l as [|y l]; [exact H|]. right. now apply IH.
+Qed.
+
+Lemma skipn_cons_nth {A} (l : list A) j d : j < length l -> skipn j l = nth j l d :: skipn (S j) l.
+Proof.
+  revert j; induction l as [|x l IH]; intros j Hj; simpl in *; [lia|].
+  destruct j as [|j]; [reflexivity|]. apply IH. lia.
+Qed.
